@@ -272,6 +272,7 @@ def run(pid, tier, spec):
             done = 0
             sidx = 0
             agg = None
+            searched = False
             while done < n:
                 k = min(shard, n - done)
                 tp = os.path.join(wd, "gen-%d.trace" % sidx)
@@ -332,6 +333,12 @@ def run(pid, tier, spec):
                     except OSError: pass
                 done += k
                 sidx += 1
+                # the tie is broken and no failing input has been found yet: widen the search (4x the tier's volume,
+                # fresh seeds) before giving up
+                if done >= n and not searched and not viol_reported and (tie_broken or first_bad is not None) and tier == "quick":
+                    searched = True
+                    n += 4 * n
+                    stats["directed_search_histories"] = n - done
             dist = agg or {}
 
         # decide on a broken tie
